@@ -698,7 +698,7 @@ def expand(template_path, repo):
                     cl.append(olines[oj])
                 oj += 1
             indent0 = re.match(r'\s*', ln).group(0)
-            lines[i:i + 1] = [indent0 + f'//@fn {rel2} {qn2} external from={other}'] + cl + [indent0 + '//@end']
+            lines[i:i + 1] = [indent0 + f'//@fn {rel2} {qn2} nobody from={other}'] + cl + [indent0 + '//@end']
             continue
         if st.startswith('//@fn '):
             parts = st.split()
